@@ -31,7 +31,13 @@ def check(ctx: Ctx) -> None:
             lst = a[0].value.id
             for r in rets:
                 rep.ob("R14.1", "the list returned is the list of ids that was cancelled", isinstance(r.ast.value, ast.Name) and r.ast.value.id == lst, node=r)
-                rep.ob("R14.1", "stop returns only after cancel() succeeded", can_follow(c, r) and r not in reach([g.entry], avoid={c}), node=r)
+                # a return that is not preceded by cancel() is fine only while the list is still provably empty
+                fills = ctx.nodes(f, lambda n: n.op == "call" and isinstance(n.ast.func, ast.Attribute) and isinstance(n.ast.func.value, ast.Name) and n.ast.func.value.id == lst
+                                  and n.ast.func.attr in ("append", "extend", "insert"))
+                for rc in [x for x in g.nodes if x.ast is r.ast and x.op == "return" and x.pred]:
+                    early = rc in reach([g.entry], avoid={c})
+                    ok = (not early) or not any(can_follow(fl, rc) for fl in fills)
+                    rep.ob("R14.1", "stop returns ids only after cancel() succeeded for them", ok, node=rc)
             verdict, why = prefix_idiom(ctx, f, lst, nump)
             rep.ob("R14.1", "the ids are the first min(num, running) of the running registry in reverse insertion order", verdict, func=f,
                    construct=f"computation of `{lst}`", detail=why)
@@ -98,6 +104,12 @@ def prefix_idiom(ctx: Ctx, f, lst: str, nump: str):
             return None, "not a for loop"
         it = lp.iter
         if not (isinstance(it, ast.Call) and isinstance(it.func, ast.Name) and it.func.id == "enumerate" and len(it.args) == 1 and not it.keywords):
+            if isinstance(lp.target, ast.Name):
+                ev = lp.target.id
+                for t in ctx.nodes(f, lambda n: n.op == "test" and n.loops and n.loops[-1] is lp):
+                    if any(isinstance(x, ast.Name) and x.id == ev for x in ast.walk(t.ast)):
+                        return False, (f"the selection depends on the value of the id (`{ast.unparse(t.ast)}`); running ids have gaps after tasks end or are cancelled by id, "
+                                       "only the number of ids collected may bound the loop")
             return None, "the loop does not count with enumerate(...)"
         rv = reversed_running(it.args[0])
         if rv is None:
@@ -139,6 +151,10 @@ def prefix_idiom(ctx: Ctx, f, lst: str, nump: str):
             return (False, "the number of ids collected is not bounded by num") if not tests else (None, "unrecognised bound test")
         if good is False:
             return False, "the bound is tested after the append, or with the wrong comparison (off by one)"
+        # ids are opaque labels with gaps: the element itself must not steer the selection
+        for t in tests:
+            if any(isinstance(x, ast.Name) and x.id == idvar for x in ast.walk(t.ast)):
+                return False, f"the selection depends on the value of the id (`{ast.unparse(t.ast)}`); running ids have gaps, only the number collected may bound the loop"
         # every iteration before the bound appends (no other skip)
         heads = [h for h in g.nodes if h.pred and h.op == "iter" and h.ast is lp]
         others = [n for n in ctx.nodes(f, lambda n: n.op in ("continue",) and n.loops and n.loops[-1] is lp)]
